@@ -71,8 +71,8 @@ class Ctx:
         return r
 
     # ---------------------------------------------------------------- trace validation
-    def validate(self, module, traces, *, name=None, chunk=None, workers=16, env=None, timeout=1800):
-        cfg = tlc.write_cfg("%s_trace_%s" % (self.pid, module))
+    def validate(self, module, traces, *, name=None, chunk=None, workers=16, env=None, timeout=1800, constants=None, spec="Spec"):
+        cfg = tlc.write_cfg("%s_trace_%s" % (self.pid, module), constants=constants, spec=spec)
         r = tlc.validate_traces(module, cfg, traces, name=name or self.pid, workers=workers, chunk=chunk, env=env, timeout=timeout)
         self.states += r["distinct"]
         self.transitions += r["generated"]
